@@ -323,7 +323,13 @@ static void
 run_case(Ctx& ctx)
 {
   vf::Rng& rng = ctx.rng;
-  const bool predefined = ctx.thorough() && (ctx.idx % 4 == 3);
+  // predefined (full-size) scanners: thorough tier, -O2 flavour only (a factorised sweep of e.g. the Vision 600 is ~1e8 map
+  // evaluations, hours under ASan); chosen by the case's own PRNG so that they are spread evenly over the shards
+#ifdef NDEBUG
+  const bool predefined = ctx.thorough() && rng.coin(0.05);
+#else
+  const bool predefined = false;
+#endif
   shared_ptr<Scanner> sc;
   vg::ScannerSpec ss;
   if (predefined)
